@@ -770,7 +770,7 @@ pub fn run(ctx: &mut Ctx) {
         run_case(ctx, &case);
     }
     for i in 0..(6 * scale) {
-        let shape = super::td_common::SHAPES[(i as usize + ctx.shard) % 15];
+        let shape = super::td_common::SHAPES[(i as usize + ctx.shard) % super::td_common::SHAPES.len()];
         let case = Json::obj().set("via", "C10").set("lane", "history").set("k", *rng.pick(&[10u64, 29, 100, 500])).set("shape", shape).set("n", 6000u64).set("nq", 150u64).set("seed", ctx.case_seed("c10", i));
         run_case(ctx, &case);
         let case = Json::obj().set("via", "C15").set("k", *rng.pick(&[10u64, 30, 200])).set("shape", shape).set("n", 20_000u64).set("merge_parts", rng.range(1, 8)).set("seed", ctx.case_seed("c15", i));
